@@ -67,7 +67,8 @@ def MOp.reader : MOp → List Nat
   | .get r _ | .rel r | .back r => [r]
   | .hb => []
 
-/-- settle order: the reader of the op itself, then the readers observed as `got`, then everybody -/
+/-- settle order: (before the heartbeat: the reader of the op itself, then) the readers observed as
+    `got`, then everybody -/
 def gotFirst (obs : List (Nat × Status)) (n : Nat) : List Nat :=
   (obs.filterMap fun (r, st) => match st with | .got _ => some r | _ => none) ++ List.range n
 
@@ -112,9 +113,9 @@ def applyOp (c : Cfg) (m : MS) : MOp → Option MS
 
 def block? (c : Cfg) (hb : Bool) (m : MS) (b : Block) : Option MS := do
   let n := m.s.pcs.length
-  let order := b.op.reader ++ gotFirst b.obs n
+  let order := gotFirst b.obs n
   let m ← applyOp c m b.op
-  let m := settle c order (n + 2) m
+  let m := settle c (b.op.reader ++ order) (n + 2) m
   if !hb then pure m else
   let s1 ← step? c m.s .hbRead
   let s2 ← step? c s1 .hbFire
@@ -180,9 +181,9 @@ def applyOp (m : MS) : MOp → Option MS
 
 def block? (hb : Bool) (m : MS) (b : Block) : Option MS := do
   let n := m.s.pcs.length
-  let order := b.op.reader ++ gotFirst b.obs n
+  let order := gotFirst b.obs n
   let m ← applyOp m b.op
-  let m := settle order (n + 2) m
+  let m := settle (b.op.reader ++ order) (n + 2) m
   if !hb then pure m else
   let s1 ← step? m.s .hbRead
   let s2 ← step? s1 .hbFire
